@@ -69,6 +69,10 @@ func (e *Engine) encodeFunction(name string) (fe *FuncEnc, err error) {
 		fe.assume(tBool(true), fe.wf(t, p.Type(), st))
 		fe.inputs = append(fe.inputs, ModelInput{Name: p.Name(), Sym: t.S, Sort: s, Type: types.TypeString(p.Type(), nil)})
 	}
+	// nothing runs after the process has exited
+	if e.modsetOf(fn)["G_io_Exited"] {
+		fe.assume(tBool(true), tNot(fe.comp(st, "G_io_Exited", SBool)))
+	}
 	f.entry = st.clone()
 	if fe.con != nil {
 		fe.props = fe.con.Props
@@ -137,6 +141,9 @@ func setup(repo string) (*Engine, error) {
 	e.compSorts["XS_strings_Builder"] = arrSort(SInt, SStr)
 	e.compSorts["X_strings_Builder"] = arrSort(SInt, SInt)
 	e.collectDynTypes()
+	for _, t := range e.dynTypes {
+		e.sorts.tagOf(t)
+	}
 	specs, err := loadSpecTable(filepath.Join(verifDir, "spec"))
 	if err != nil {
 		return e, err
